@@ -86,6 +86,104 @@ class Ctx:
         return "other:" + type(v).__name__
 
 
+class Pool:
+    """user-supplied objects (Factory objects, Converter instances, validator / key / repr / hook callables)
+    that may be SHARED: between fields of one class, and with classes defined earlier.
+
+    `get(kind, sig, i)` hands out one object per (kind, signature, i mod ngroups) when `shared`, a brand-new
+    one on every request otherwise; either way the object tags what it returns / logs with that triple, never
+    with the field it happens to serve, so a class built from shared objects and its twin built from fresh
+    ones have equal fingerprints exactly when every call reached an object of the right group."""
+
+    def __init__(self, shared, ngroups):
+        self.shared, self.ngroups = shared, max(1, ngroups)
+        self.ctx = None          # the build whose class is being exercised right now
+        self.objs = {}
+
+    def _log(self, entry):
+        if self.ctx is not None:
+            self.ctx.log.append(entry)
+
+    def _canon(self, v):
+        return self.ctx.canon(v) if self.ctx is not None else "?"
+
+    def get(self, kind, sig, i):
+        tag = "%s.%s.%d" % (kind, sig, i % self.ngroups)
+        if self.shared and tag in self.objs:
+            return self.objs[tag]
+        obj = self._make(kind, sig, tag)
+        if self.shared:
+            self.objs[tag] = obj
+        return obj
+
+    def _make(self, kind, sig, tag):
+        fn, obj = self._make_untagged(kind, sig, tag)
+        fn._c17_tag = tag
+        return fn, obj
+
+    def _make_untagged(self, kind, sig, tag):
+        pool = self
+        if kind == "factory":
+            if sig == "self":
+                def fn(inst):
+                    pool._log(["fac", tag, pool._canon(inst)])
+                    return ("fs", tag)
+            else:
+                def fn():
+                    pool._log(["fac", tag])
+                    return ("f", tag)
+            return (fn, attr.Factory(fn, takes_self=sig == "self"))
+        if kind == "converter":
+            def fn(value, *extra):
+                pool._log(["conv", tag, pool._canon(value), [pool._canon(e) for e in extra]])
+                return ("c", tag, value)
+            return (fn, attr.Converter(fn, takes_self=sig in ("self", "both"), takes_field=sig in ("field", "both")))
+        if kind == "validator":
+            def fn(inst, a, value):
+                pool._log(["val", tag, pool._canon(inst), pool._canon(a), pool._canon(value)])
+            return (fn, fn)
+        if kind == "key":
+            def fn(value):
+                return ("k", tag, value)
+            return (fn, fn)
+        if kind == "repr":
+            def fn(value):
+                return "R%s<%r>" % (tag, pool._canon(value))
+            return (fn, fn)
+        if kind == "hook":
+            def fn(inst, a, value):
+                pool._log(["hook", tag, pool._canon(a), pool._canon(value)])
+                return ("h", tag, value)
+            return (fn, fn)
+        raise KeyError(kind)
+
+
+def _mk_pool_callbacks(pool, i, f):
+    """like _mk_callbacks, with the objects taken from a pool; `_obj_<kind>` is what is handed to attr.ib"""
+    cb = {}
+
+    def take(slot, kind, sig):
+        fn, obj = pool.get(kind, sig, i)
+        cb[slot] = fn
+        cb["_obj_" + slot] = obj
+
+    if f["dflt"] == "factory":
+        take("factory", "factory", "plain")
+    elif f["dflt"] == "factorySelf":
+        take("factory", "factory", "self")
+    if f["conv"] != "none":
+        take("converter", "converter", f["conv"])
+    if f["validator"]:
+        take("validator", "validator", "v")
+    if f["eqKey"]:
+        take("key", "key", "k")
+    if f["repr"] == "custom":
+        take("repr", "repr", "r")
+    if f["onSetattr"] == "hook":
+        take("hook", "hook", "h")
+    return cb
+
+
 def _mk_callbacks(ctx, i, f):
     """the callables of field i; every one records its own identity in what it returns / logs"""
     cb = {}
@@ -131,6 +229,8 @@ def _ib(ctx, i, f, cbs):
     d = f["dflt"]
     if d == "value":
         kw["default"] = 700 + i
+    elif "_obj_factory" in cbs:
+        kw["default"] = cbs["_obj_factory"]          # a (possibly shared) attr.Factory object
     elif d == "factory":
         kw["default"] = attr.Factory(cbs["factory"])
     elif d == "factorySelf":
@@ -142,7 +242,9 @@ def _ib(ctx, i, f, cbs):
     if f.get("explicitAlias"):
         kw["alias"] = f["alias"]
     c = f["conv"]
-    if c == "plain":
+    if "_obj_converter" in cbs:
+        kw["converter"] = cbs["_obj_converter"]      # a (possibly shared) explicit attr.Converter instance
+    elif c == "plain":
         kw["converter"] = cbs["converter"]
     elif c != "none":
         kw["converter"] = attr.Converter(cbs["converter"], takes_self=c in ("self", "both"),
@@ -169,8 +271,9 @@ def _ib(ctx, i, f, cbs):
 class Build:
     """one real class built from a case in one synthetic module"""
 
-    def __init__(self, case, names=None, aliases=None, poison=()):
+    def __init__(self, case, names=None, aliases=None, poison=(), pool=None):
         self.case = case
+        self.pool = pool
         fields = case["fields"]
         self.names = list(names) if names is not None else [f["name"] for f in fields]
         self.ctx = Ctx(self.names)
@@ -182,8 +285,10 @@ class Build:
         cfg = case.get("cfg", {})
         c = case["cls"]
         ctx = self.ctx
+        if pool is not None:
+            pool.ctx = ctx
         for i, f in enumerate(fields):
-            self.cbs.append(_mk_callbacks(ctx, i, f))
+            self.cbs.append(_mk_pool_callbacks(pool, i, f) if pool is not None else _mk_callbacks(ctx, i, f))
         ibs = []
         for i, f in enumerate(fields):
             g = dict(f)
@@ -390,6 +495,24 @@ class Build:
         g = next(iter(fns.values())).__globals__
         return [{"meth": m, "name": n, "obj": self.classify(g, n)} for m, n in self.loads()]
 
+    def group_table(self):
+        """for builds from a pool: what each global load finds, by the pool tag of the object (never by field)"""
+        fns = self.functions()
+        if not fns:
+            return []
+        g = next(iter(fns.values())).__globals__
+        out = []
+        for m, n in self.loads():
+            v = g.get(n, None)
+            tag = getattr(v, "_c17_tag", None) if n in g else None
+            if tag is not None:
+                out.append([m, n, "tag", tag])
+            elif isinstance(v, attr.Attribute):
+                out.append([m, n, "attribute", next((i for i, a in enumerate(self.afields) if a is v), -1)])
+            else:
+                out.append([m, n, self.classify(g, n)["kind"], ""])
+        return out
+
     def injected(self):
         """names in the generated functions' globals that do not come from the module namespace"""
         fns = self.functions()
@@ -408,6 +531,8 @@ class Build:
         """name-free behaviour of the class: construction (three call shapes, validators on/off), repr, eq, ne,
         hash pattern, ordering, setattr, copy, pickle.  Field names never appear: indices do."""
         ctx, C, c = self.ctx, self.cls, self.case["cls"]
+        if self.pool is not None:
+            self.pool.ctx = ctx
         fields = self.case["fields"]
         afs = self.afields
         names = [a.name for a in afs]
